@@ -1043,8 +1043,10 @@ class Unit2:
     def function_body(self, node, spec, ptypes, suffix, partial):
         a = node.args
         for d in node.decorator_list:
-            if not (isinstance(d, ast.Call) and isinstance(d.func, ast.Name)
-                    and d.func.id == "lru_cache"):
+            if not (isinstance(d, ast.Call) and (
+                    isinstance(d.func, ast.Name) and d.func.id == "lru_cache"
+                    or isinstance(d.func, ast.Attribute) and d.func.attr == "lru_cache"
+                    and isinstance(d.func.value, ast.Name) and d.func.value.id == "functools")):
                 raise Reject("%s: decorator %s" % (node.name, ast.unparse(d)))
         for sub in ast.walk(node):
             if isinstance(sub, (ast.FunctionDef, ast.Lambda, ast.Global, ast.Nonlocal, ast.Yield,
